@@ -193,7 +193,18 @@ def giga_case(exe, wd, seed, res):
     reps = 540
     mode = rng.choice([["view", "rdh"], ["check", "sanity", "-m"], ["check", "all", "-m"]])
     sp = os.path.join(wd, "giga.json")
-    p = subprocess.Popen([exe] + mode + ["-S", sp, "-D", "json"], stdin=subprocess.PIPE, stdout=subprocess.DEVNULL, stderr=subprocess.PIPE, cwd=wd, env=dict(os.environ, TMPDIR=wd))
+    p = subprocess.Popen([exe] + mode + ["-S", sp, "-D", "json"], stdin=subprocess.PIPE, stdout=subprocess.PIPE, stderr=subprocess.PIPE, cwd=wd, env=dict(os.environ, TMPDIR=wd))
+    tail = [b"", 0]
+
+    def drain():
+        while True:
+            b = p.stdout.read(1 << 20)
+            if not b:
+                break
+            tail[0] = (tail[0] + b)[-65536:]
+            tail[1] += b.count(b"\n")
+    t3 = threading.Thread(target=drain, daemon=True)
+    t3.start()
 
     def feed():
         try:
@@ -214,6 +225,7 @@ def giga_case(exe, wd, seed, res):
         raise Inconclusive("giga case: watchdog (1500 s)")
     t.join(timeout=10)
     t2.join(timeout=10)
+    t3.join(timeout=10)
     err = errbuf[0] if errbuf else b""
     rdir = save_replay("C14", "giga", {"stderr.txt": err[-20000:]}, dict(seed=seed, mode=mode, note="input: 540 x a generated 1000-packet block with 8000-byte payloads, see giga_case"))
     res.evaluations += 1
@@ -222,8 +234,32 @@ def giga_case(exe, wd, seed, res):
     if p.returncode not in (0, 1):
         res.violation("stats:giga:abnormal", "%s: abnormal end (status %s): %s" % (desc, p.returncode, err.decode("utf-8", "replace")[-300:]), rdir)
         return
-    st = json.load(open(sp))["rdh_stats"]
+    full = json.load(open(sp))
+    st = full["rdh_stats"]
     os.unlink(sp)
+    if mode[0] == "view":
+        import obs as _obs
+        rows = _obs.parse_rdh_view(tail[0][tail[0].find(b"\n") + 1:])
+        last_off = len(bdata) * (reps - 1) + block[-1].offset
+        res.count("facts_compared", 2)
+        if not rows or rows[-1][0] != last_off:
+            res.violation("stats:giga:view", "%s: last row shown at %s, the last packet is at 0x%X" % (desc, rows and hex(rows[-1][0]), last_off), rdir)
+            return
+    if mode[0] == "check":
+        # positions beyond 2^32: every message is located at the start of a packet (block structure), and messages exist beyond 4 GiB
+        import obs as _obs
+        offs_ok = set(q.offset for q in block)
+        hi = 0
+        for m in full["error_stats"]["reported_errors"]:
+            o = _obs.Msg(m).offset
+            res.count("facts_compared", 1)
+            if o is None or (o % len(bdata)) not in offs_ok or o >= len(bdata) * reps:
+                res.violation("stats:giga:offset", "%s: message located at %s, which is not the start of a packet: %s" % (desc, o, m[:80]), rdir)
+                return
+            hi = max(hi, o)
+        if full["error_stats"]["reported_errors"] and hi < 2 ** 32:
+            res.violation("stats:giga:offset", "%s: no message located beyond 4 GiB (highest 0x%X) although every block carries the same errors" % (desc, hi), rdir)
+            return
     want = dict(rdhs_seen=1000 * reps, payload_size=8000 * 1000 * reps, hbfs_seen=sum(1 for q in block if q.f["stop_bit"] == 1) * reps)
     for k, v in want.items():
         res.count("facts_compared", 1)
